@@ -820,3 +820,72 @@ m('C17', 'misfit cached as DataArray and returned via .data (defect F12)', SIMS,
   "            self._misfit = misfit\n\n        return self._misfit.data\n", 'C17.K2.plain')
 m('C01', 'krylov: info == 0 taken for success also with maxit 0 (defect F13)', SOLVER,
   "    elif i > 0 or var.ssl_maxit < 1:", "    elif i > 0:", 'C01.R1')
+m('C19', 'extract_1d: merge decided against a sentinel value (defect F14)', MODELS,
+  "                diff[1:] += abs(np.diff(v))\n            diff[0] = 1.0  # The first layer is always kept.\n",
+  "                diff += abs(np.diff(np.r_[-1, v]))\n", 'C19.L1.merge')
+m('C19', 'layered: mrec from the source type', MP,
+  "            'mrec': rec.xtype != 'electric',", "            'mrec': src.xtype != 'electric',",
+  'C19.L3.absolute')
+
+# ------------------------------------------------ rules added after seeded round 3
+m('C02', 'VolumeModel: conductivities volume-weighted in place', MODELS,
+  "                cond = model.map.backward(prop)\n",
+  "                cond = model.map.backward(prop)\n                cond *= 1.0\n", 'C02.O4.alias')
+m('C02', 'solve: VolumeModel remembered on the model', SOLVER,
+  "    vmodel = models.VolumeModel(model, sfield)\n",
+  "    vmodel = getattr(model, '_vm', None)\n    if vmodel is None:\n        vmodel = models.VolumeModel(model, sfield)\n        model._vm = vmodel\n",
+  'C02.O5')
+m('C01', 'VolumeModel: displacement term dropped for epsilon_r == 1', MODELS,
+  "                if model.epsilon_r is None:\n                    eta = -sfield.smu0*vol*cond",
+  "                if model.epsilon_r is None or np.all(model.epsilon_r == 1):\n                    eta = -sfield.smu0*vol*cond",
+  'C01.OP')
+m('C03', 'smoothing: early exit for a zero source', SOLVER,
+  "    # Collect Gauss-Seidel input (same for all routines)\n",
+  "    if not np.any(sfield.field):\n        return\n\n    # Collect Gauss-Seidel input (same for all routines)\n",
+  'C03.S6')
+m('C07', '_get_responses: slices instead of receiver-type indices', SIMS,
+  "            resp[mrec] = hfield.get_receiver(", "            resp[erec.size:] = hfield.get_receiver(",
+  'C07.AS')
+n('C07', '_get_rfield: survey source bound to a local before the loop', SIMS,
+  "        # Loop over receivers, input as source.\n        for i, rec in enumerate(self.survey.receivers.values()):",
+  "        the_source = self.survey.sources[source]\n        for i, rec in enumerate(self.survey.receivers.values()):")
+m('C08', 'jtvec: residual saved as a view', SIMS,
+  "        residual = self.data.residual.data.copy()", "        residual = self.data.residual.data",
+  'C08.V4')
+m('C09', '_point_vector: coordinates rounded', FIELDS,
+  "    # Ensure source is within nodes.\n    outside = (\n        coordinates[0] < grid.nodes_x[0] or",
+  "    coordinates = np.round(np.asarray(coordinates, dtype=float), 6)\n    outside = (\n        coordinates[0] < grid.nodes_x[0] or",
+  'C09.PV')
+m('C10', 'get_source_field: length only for electric dipoles', FIELDS,
+  "        if source.size == 5:\n            inp['length'] = kwargs.get('length', 1.0)\n",
+  "        if source.size == 5 and kwargs.get('electric', True):\n            inp['length'] = kwargs.get('length', 1.0)\n",
+  'C10.SF')
+m('C11', 'get_source_field: vector remembered on the source', FIELDS,
+  "    # Initiate field with the total vector field.\n",
+  "    source._vfield = vfield\n    # Initiate field with the total vector field.\n", 'C11.P4')
+m('C12', 'to_dict: hand-over attribute read but not deleted', SIMS,
+  "            what = self._what_to_file\n            delattr(self, '_what_to_file')",
+  "            what = self._what_to_file", 'C12.OW5.oneshot')
+m('C13', '_set_nf_re: assignment resets the standard deviation', SURV,
+  "            # If one value it is stored as attribute.\n",
+  "            self.standard_deviation = None\n            # If one value it is stored as attribute.\n",
+  'C13.N2.writers')
+m('C14', '_set_layered_opts: minimum taken in mapped space', SIMS,
+  "                    zneg = self.model.property_x[:, :, 0]\n                    cond = np.min(self.model.map.backward(zneg))",
+  "                    zneg = np.min(self.model.property_x[:, :, 0])\n                    cond = self.model.map.backward(zneg)",
+  'C14.M4')
+m('C17', 'to_dict: scratch tolerance wins over tol_forward', SIMS,
+  "            'solver_opts': self.solver_opts,", "            'solver_opts': {'tol': self.tol_forward, **self.solver_opts},",
+  'C17.K2.plain')
+m('C17', 'Survey: data sets cast to complex', SURV,
+  "            {k: xarray.DataArray(v, dims=dims) for k, v in data.items()},",
+  "            {k: xarray.DataArray(np.asarray(v, dtype=complex), dims=dims) for k, v in data.items()},",
+  'C17.K2.plain')
+m('C18', 'parser: linear interpolation default also for misfit runs', PARSER,
+  "    elif term['function'] == 'gradient':\n        # Default is 'cubic'",
+  "    elif term['function'] != 'forward':\n        # Default is 'cubic'", 'C18.Q6')
+m('C18', 'run --clean keeps the results', RUN,
+  "            sim.clean('computed')", "            sim.clean('keepresults')", 'C18.Q2')
+m('C19', 'extract_1d: merged thickness from the first cell', MODELS,
+  "            hz = np.diff(np.r_[self.grid.nodes_z[ind], self.grid.nodes_z[-1]])",
+  "            hz = np.diff(np.r_[ind, self.shape[2]])*self.grid.h[2][ind]", 'C19.L1.merge')
